@@ -20,6 +20,25 @@ CHECKS = {
                 note="Trusted: obstacles are non-destructive by construction; reference model; tmpfs."),
 }
 
+CHECKS.update({
+    "C03": dict(engine="E3 export-explorer (graph)", category="exploration", design="§6 C03",
+                technique="exhaustive small-scope enumeration of dependency graphs x file placements x base spellings executed on the real exporter; closure decided with an independent TypeScript parser and path resolver",
+                text="For every graph shape (one per dependency-edge kind) under every placement of its types into files and every base spelling, each file written by a real export_all is parsed and must import exactly its free names, once, from files the same export wrote that declare them.",
+                note="Trusted: swc parser, tsmodel resolver. Bounded: graphs of <=4 user types, placement alphabet of 6, listed base spellings."),
+    "C08": dict(engine="E3 export-explorer (paths, graph)", category="exploration", design="§6 C08",
+                technique="exhaustive enumeration of (importer, dependency) path pairs over a component alphabet up to a depth bound through the real import_path, against an independent lexical resolver",
+                text="All ordered pairs of paths up to the depth bound x base spellings x cwd depths x ESM on/off: the specifier is relative, forward-slashed, extension-free (.js iff ESM) and resolves to the dependency's file.",
+                note="Trusted: tsmodel::paths (TypeScript's relative module rule). The Windows branch is not executable here."),
+    "C11": dict(engine="E3 export-explorer (graph)", category="exploration", design="§6 C11",
+                technique="exhaustive enumeration of dependency graphs x export_to forms x base settings x pre-existing contents with before/after snapshots of the real export",
+                text="For every graph x placement x base x pre-existing content, the set of created/modified paths equals the documented locations of exactly the types reachable by name, nothing else changes, and output_path() reports the written path.",
+                note="Trusted: reachability from swc free names of the real decl() strings; snapshot = bytes+inode+mtime."),
+    "C13": dict(engine="E3 export-explorer (determ, sched)", category="model_checking", design="§6 C13",
+                technique="exhaustive enumeration of visit-order permutations (hook H2), root-order permutations and preemption-bounded thread schedules on the real exporter; fresh-compilation cross-check is sampling and labelled as such",
+                text="Every owned source of nondeterminism is enumerated: all statement orders of generated visit_dependencies bodies, all orders of root exports, all thread interleavings up to the bound, each run twice; outputs must be identical and equal to the reference model.",
+                note="Un-ownable sources (hash seeds of fresh compiler processes, libtest's scheduler) are only sampled in the thorough tier and decide nothing."),
+})
+
 NOT_YET = {
 }
 
